@@ -372,6 +372,17 @@ def r_mapkey(ctx, rep):
                         else:
                             wrong = (loc(m), c)
     if not ok:
+        # positive form: `if self.cells[i].is_empty() { continue }` in front of the key
+        for lp in walk_k(fn.body, "Loop"):
+            for i in walk_k(lp, "If"):
+                c_ = unwrap(i["cond"])
+                if isinstance(c_, dict) and c_.get("k") == "MethodCall" and c_.get("name") == "is_empty":
+                    th = [x for x in walk(i["then"]) if isinstance(x, dict) and x.get("k") in ("Continue", "Ret", "Break")]
+                    on_cells = any(x.get("k") == "Field" and x.get("name") == "cells" for x in walk(c_["recv"]))
+                    cal = callee(c_) or ""
+                    if th and all(x.get("k") == "Continue" for x in th) and on_cells and "String" not in cal and "::str::" not in cal:
+                        ok = True
+    if not ok:
         # iterator form: `self.iter.by_ref().find(|i| !cells[i].is_empty())` / `.filter(..)`
         cells_locals = {lid for l in walk_k(fn.body, "Let") if l.get("init") is not None and field_chain(l["init"]) == ("self", ["cells"]) for _, lid in pat_bindings(l["pat"])}
         for c in walk_k(fn.body, "MethodCall"):
